@@ -550,4 +550,214 @@ def runProg (w : World Feature) (s : MSeq) : List Op → List MSeq × World Feat
 
 end ops
 
+
+/-! ### `asComplete` (location.go:346-364) — the one function that writes through a location
+
+`Joined`/`Ordered` are slices of `Location` interface values.  `asComplete` stores into the slice
+it is given (`v[i] = asComplete(u)`) and returns that same slice: it IS impure.  It has exactly
+one call site, `gts.Slice` (sequence.go:278), where its argument is
+`f.Loc.Expand(end, end-seqlen).Expand(0, -start)`.  `Expand` of a `Joined`/`Ordered` builds
+`locs := make([]Location, n)` and returns `Join(locs...)`/`Order(locs...)`, which is either a new
+slice (`list.Slice()`, `flattenLocations`) or a single element that is itself the result of an
+`Expand`; so every slice reachable from the argument was allocated by that `Expand`
+(`allocLoc` below; checked on the real code by the C11 harness, oracle `expand-fresh`). -/
+
+/-- a location as it lies in memory -/
+inductive MLoc where
+  | leaf (l : Loc)        -- Between / Point / Ranged / Ambiguous: plain values
+  | joined (s : Slice)    -- `Joined`: a slice header into the heap of location cells
+  | ordered (s : Slice)   -- `Ordered`
+  | compl (m : MLoc)      -- `Complemented{Location}`
+  deriving Repr, Inhabited
+
+/-- `for i, u := range v { v[i] = rec(u) }` -/
+def acLoop (rec : Heap MLoc → MLoc → MLoc × Heap MLoc) (s : Slice) : Nat → Nat → Heap MLoc → Heap MLoc
+  | 0, _, h => h
+  | n + 1, i, h =>
+    match load h s i with
+    | some u => let r := rec h u; acLoop rec s n (i + 1) (store r.2 s i r.1)
+    | none => h
+
+/-- `asComplete(loc)`; `fuel` bounds the nesting depth (Go recurses on the value) -/
+def asCompleteMem : Nat → Heap MLoc → MLoc → MLoc × Heap MLoc
+  | 0, h, m => (m, h)
+  | fuel + 1, h, m =>
+    match m with
+    | .leaf l => (.leaf l.asComplete, h)
+    | .joined s => (.joined s, acLoop (asCompleteMem fuel) s s.len 0 h)
+    | .ordered s => (.ordered s, acLoop (asCompleteMem fuel) s s.len 0 h)
+    | .compl m => (.compl m, h)
+
+/-- read a location value out of memory -/
+def readLoc : Nat → Heap MLoc → MLoc → Loc
+  | 0, _, _ => default
+  | _ + 1, _, .leaf l => l
+  | fuel + 1, h, .joined s => .joined ((read h s).map (readLoc fuel h))
+  | fuel + 1, h, .ordered s => .ordered ((read h s).map (readLoc fuel h))
+  | fuel + 1, h, .compl m => .compl (readLoc fuel h m)
+
+mutual
+/-- build the location value `l` in newly allocated arrays (what `Expand`/`Join`/`Order` return) -/
+def allocLoc : Loc → Heap MLoc → MLoc × Heap MLoc
+  | .joined ls, h =>
+    let r := allocList ls h
+    (.joined ⟨r.2.length, 0, r.1.length, r.1.length⟩, r.2 ++ [r.1])
+  | .ordered ls, h =>
+    let r := allocList ls h
+    (.ordered ⟨r.2.length, 0, r.1.length, r.1.length⟩, r.2 ++ [r.1])
+  | .compl l, h => let r := allocLoc l h; (.compl r.1, r.2)
+  | l, h => (.leaf l, h)
+def allocList : List Loc → Heap MLoc → List MLoc × Heap MLoc
+  | [], h => ([], h)
+  | l :: ls, h =>
+    let r := allocLoc l h
+    let rs := allocList ls r.2
+    (r.1 :: rs.1, rs.2)
+end
+
+/-- every slice header inside `m` points at an array with id `≥ n` -/
+def RefsAbove (n : Nat) : MLoc → Prop
+  | .leaf _ => True
+  | .joined s => n ≤ s.arr
+  | .ordered s => n ≤ s.arr
+  | .compl m => RefsAbove n m
+
+/-- the arrays with id `≥ n` only refer to arrays with id `≥ n` -/
+def Closed (n : Nat) (h : Heap MLoc) : Prop := ∀ a, n ≤ a → ∀ c ∈ h.get a, RefsAbove n c
+
+/-! ### `Origin.Bytes` (seqio/origin.go:72) — replace-and-flag on the `*Origin` -/
+
+/-- `seqio.Origin` -/
+structure OriginCell where
+  buffer : Slice
+  parsed : Bool
+  deriving Repr, DecidableEq, Inhabited
+
+/-- the byte heap and the `*Origin` cells (a pointer is an index) -/
+structure OWorld where
+  B : Heap UInt8
+  O : List OriginCell
+
+/-- `fromOriginLength` (seqio/origin.go:30) -/
+def fromOriginLength (length : Nat) : Nat :=
+  let lines := length / 76
+  let ret := lines * 60
+  let lastLine := length % 76
+  if lastLine = 0 then ret
+  else
+    let lastLine := lastLine - 11
+    ret + (lastLine / 11) * 10 + lastLine % 11
+
+/-- the inner loop of `Origin.Bytes`: `for j := 0; j < 60 && i+j < length; j += 10` -/
+def originBlocks (p : List UInt8) (length i : Nat) : Nat → Nat → Nat → List UInt8 → Nat × List UInt8
+  | 0, _, start, acc => (start, acc)
+  | fuel + 1, j, start, acc =>
+    if j < 60 ∧ i + j < length then
+      let start := start + 1
+      let end_ := min (start + 10) (p.length - 1)
+      originBlocks p length i fuel (j + 10) end_ (acc ++ (p.take end_).drop start)
+    else (start, acc)
+
+/-- the outer loop: `for i := 0; i < length; i += 60` -/
+def originLines (p : List UInt8) (length : Nat) : Nat → Nat → Nat → List UInt8 → List UInt8
+  | 0, _, _, acc => acc
+  | fuel + 1, i, start, acc =>
+    if i < length then
+      let r := originBlocks p length i 7 0 (start + 9) acc
+      originLines p length fuel (i + 60) (r.1 + 1) r.2
+    else acc
+
+/-- the residues `Origin.Bytes` extracts from the formatted text `p` (`len(p) ≥ 12`); the copies
+go into `q := make([]byte, length)`, so the result is cut/padded to `length` -/
+def originDecode (p : List UInt8) : List UInt8 :=
+  let length := fromOriginLength p.length
+  let q := originLines p length (length / 60 + 1) 0 0 []
+  (q ++ List.replicate (length - q.length) 0).take length
+
+/-- `(*Origin).Bytes()`; `de` is the text → residues function (`originDecode`) -/
+def originBytes (de : List UInt8 → List UInt8) (w : OWorld) (o : Nat) : Slice × OWorld :=
+  match w.O[o]? with
+  | none => (Slice.nil, w)
+  | some c =>
+    if c.parsed then (c.buffer, w)
+    else if c.buffer.len < 12 then (Slice.nil, w)
+    else
+      let v := de (read w.B c.buffer)
+      let q := mk w.B v.length v.length
+      (q.1, ⟨write q.2 q.1.arr q.1.off v, w.O.set o ⟨q.1, true⟩⟩)
+
+/-- what `o.Bytes()` would return in world `w`, as a value -/
+def obsBytes (de : List UInt8 → List UInt8) (w : OWorld) (o : Nat) : List UInt8 :=
+  match w.O[o]? with
+  | none => []
+  | some c => if c.parsed then read w.B c.buffer else if c.buffer.len < 12 then [] else de (read w.B c.buffer)
+
+/-- what `o.Len()` returns in world `w` -/
+def obsLen (w : OWorld) (o : Nat) : Nat :=
+  match w.O[o]? with
+  | none => 0
+  | some c => if c.buffer.len = 0 then 0 else if c.parsed then c.buffer.len else fromOriginLength c.buffer.len
+
+/-- what `o.String()` returns in world `w`; `en` is `NewOrigin` (residues → text) -/
+def obsString (en : List UInt8 → List UInt8) (w : OWorld) (o : Nat) : List UInt8 :=
+  match w.O[o]? with
+  | none => []
+  | some c => if c.parsed then en (read w.B c.buffer) else read w.B c.buffer
+
+/-! ### `Props` (props.go) — the mutators write through the receiver
+
+`Props = [][]string`: an outer slice of row headers, every row a slice of strings.  `Set`, `Add`,
+`Del` are mutators by design (pointer receiver); the sequence operations never call them.  What
+matters for C11 is which arrays they can reach: `Feature{f.Key, loc, f.Props}` (Insert, Embed,
+Delete, Slice, Rotate, Concat, Filter) SHARES the outer array and the rows between argument and
+result, `f.Props.Clone()` (Reverse, Complement) does not. -/
+
+/-- the heap of strings (rows) and the heap of row headers (outer arrays) -/
+structure PWorld where
+  R : Heap String
+  P : Heap Slice
+
+/-- `props.Index(key)`: first row whose element 0 is `key` -/
+def propsIndex (w : PWorld) (p : Slice) (key : String) : Option Nat :=
+  (read w.P p).findIdx? fun row => (read w.R row).head? == some key
+
+/-- `props.Set(key, values...)` (props.go:50) -/
+def propsSet (g : Grow) (w : PWorld) (p : Slice) (key : String) (values : List String) : Slice × PWorld :=
+  let prop := mk w.R (values.length + 1) (values.length + 1)
+  let R1 := write prop.2 prop.1.arr prop.1.off (key :: values)
+  match propsIndex w p key with
+  | none => let a := append g w.P p [prop.1]; (a.1, ⟨R1, a.2⟩)
+  | some i => (p, ⟨R1, store w.P p i prop.1⟩)
+
+/-- `props.Add(key, values...)` (props.go:62): `(*props)[i] = append((*props)[i], values...)` -/
+def propsAdd (g : Grow) (w : PWorld) (p : Slice) (key : String) (values : List String) : Slice × PWorld :=
+  match propsIndex w p key with
+  | none => propsSet g w p key values
+  | some i =>
+    match load w.P p i with
+    | some row => let a := append g w.R row values; (p, ⟨a.2, store w.P p i a.1⟩)
+    | none => (p, w)
+
+/-- `props.Del(key)` (props.go:71): `*props = append((*props)[:i], (*props)[i+1:]...)` -/
+def propsDel (g : Grow) (w : PWorld) (p : Slice) (key : String) : Slice × PWorld :=
+  match propsIndex w p key with
+  | none => (p, w)
+  | some i => let a := append g w.P (p.upto i) (read w.P (p.since (i + 1))); (a.1, ⟨w.R, a.2⟩)
+
+/-- the loop of `Clone`: `ret[i] = make([]string, len(prop)); copy(ret[i], prop)` -/
+def cloneRows (w : PWorld) (ret : Slice) : List Slice → Nat → PWorld
+  | [], _ => w
+  | row :: rows, i =>
+    let r := mk w.R row.len row.len
+    let R1 := copy r.2 r.1 (read r.2 row)
+    cloneRows ⟨R1, store w.P ret i r.1⟩ ret rows (i + 1)
+
+/-- `props.Clone()` (props.go:77) -/
+def propsClone (w : PWorld) (p : Slice) : Slice × PWorld :=
+  let ret := mk w.P p.len p.len
+  (ret.1, cloneRows ⟨w.R, ret.2⟩ ret.1 (read w.P p) 0)
+
+/-- the value of a `Props` -/
+def readProps (w : PWorld) (p : Slice) : List (List String) := (read w.P p).map (read w.R)
+
 end Gts.Mem
